@@ -152,10 +152,10 @@ class ACLRule(SimComponent):
         state["protocol"] = self.protocol if self.protocol else None
         state["src_ip_address"] = str(self.src_ip_address) if self.src_ip_address else None
         state["src_wildcard_mask"] = str(self.src_wildcard_mask) if self.src_wildcard_mask else None
-        state["src_port"] = self.src_port if self.src_port else None
+        state["src_port"] = self.src_port if self.src_port is not None else None
         state["dst_ip_address"] = str(self.dst_ip_address) if self.dst_ip_address else None
         state["dst_wildcard_mask"] = str(self.dst_wildcard_mask) if self.dst_wildcard_mask else None
-        state["dst_port"] = self.dst_port if self.dst_port else None
+        state["dst_port"] = self.dst_port if self.dst_port is not None else None
         state["match_count"] = self.match_count
         return state
 
@@ -223,8 +223,8 @@ class ACLRule(SimComponent):
             src_port = frame.udp.src_port
             dst_port = frame.udp.dst_port
 
-        src_port_matches = self.src_port == src_port if self.src_port else True
-        dst_port_matches = self.dst_port == dst_port if self.dst_port else True
+        src_port_matches = self.src_port == src_port if self.src_port is not None else True
+        dst_port_matches = self.dst_port == dst_port if self.dst_port is not None else True
 
         # The frame is permitted if all conditions are met
         if protocol_matches and src_ip_matches and dst_ip_matches and src_port_matches and dst_port_matches:
